@@ -6,9 +6,14 @@ LEVEL = "proof"
 
 def run(ctx):
     npat = 900 if ctx.quick() else 6000
-    generic.standard(ctx, "Props_C03", "rx", "api-vs-regexp", lists=(), model=True, ledger="known/C03.ledger",
+    generic.standard(ctx, ["Props_C03", "Props_PikeCaps", "Props_Onepass"], "rx", "api-vs-regexp", lists=(), model=True, ledger="known/C03.ledger",
                      extra_args=["-prop", "C03", "-patterns", npat, "-haystacks", 24])
-    ctx.coverage["explanation"] = (
+    # the PikeVM model with capture vectors (PikeCaps.v) vs the real nfa.PikeVM capture entry points (M: model =
+    # implementation, R: implementation = reference slots)
+    generic.standard(ctx, [], "pikecaps-cases", "pikevm-captures-model-vs-implementation", lists=("M", "R"), seed=1,
+                     ledger="known/C03pike.ledger")
+    ctx.coverage["PikeVM captures (PikeCaps.v): the model of SearchWithCapturesAt / SearchWithCapturesInSpan with per-thread capture vectors is proved to return exactly the reference's span AND slot vector for every well-formed NFA, haystack and offset (pikecaps_search_is_ref); the copy-on-write store with the repaired reference order implements value semantics (cow_search_is_ref), the original order is refuted (cow_original_refuted_search: `(a*)+$` on aa); replayed against the real PikeVM on every check. "
+        "explanation"] = (
         "Coq (Nfa.v, NfaRef.v, Backtrack.v): the reference search on the byte-level Thompson NFA is a priority-ordered DFS with a visited "
         "set; proved for every well-formed NFA, haystack and offset: it reports a match iff an accepting path exists, at the leftmost "
         "start, inside the haystack, never runs out of fuel, captures well-formed; the bounded backtracker equals it from any reusable "
